@@ -584,6 +584,15 @@ pub fn run(args: &Args, rep: &mut Report, cfgs: Vec<Cfg>, modes: Vec<ModeSpec>, 
 }
 
 pub fn replay(v: &Value) -> bool {
+    if v["huge"].is_object() {
+        let args = Args { prop: "C02".into(), tier: "thorough".into(), seed: subject::seed(), report: String::new(), replay: None, jobs: 1, extra: Default::default() };
+        let mut rep = Report::new(&args, "replay", "model_checking");
+        crate::c01::huge_hasher(&mut rep, true);
+        for x in rep.violations.iter().take(3) {
+            println!("violation {}: {}", x.key, x.summary);
+        }
+        return !rep.violations.is_empty();
+    }
     let mode = ModeSpec::from_json(&v["mode"]);
     let stream = v["stream"].as_str().unwrap_or("A").to_string();
     let level = v["config"]["level"].as_str().unwrap_or("");
